@@ -544,6 +544,12 @@ func (c *client) receive(r io.Reader) (err error) {
 		cellsLen = header.CellBlockMeta.GetLength()
 	}
 	if d, ok := rpc.(canDeserializeCellBlocks); cellsLen > 0 && ok {
+		if rest := len(b) - headerLen - responseLen; int64(cellsLen) > int64(rest) {
+			err = RetryableError{fmt.Errorf(
+				"cellblocks length %d is larger than the %d bytes left in the response",
+				cellsLen, rest)}
+			return
+		}
 		b := b[size-cellsLen:]
 		if c.compressor != nil {
 			b, err = c.compressor.decompressCellblocks(b)
